@@ -10,7 +10,9 @@ tm = KaniUnit("c10_tm", CORE, modules=[dict(file=TM, src="c10_termination.rs")],
     H("c10_combined_one", "bounded", "Combined{Iterations}: same answer as its member", bound="one leaf member, u8 values", timeout=100),
 ])
 al = VerusUnit('al_astar', 'al_astar', rlimit=60)
-UNITS = [tm, al]
+yr = VerusUnit("c13_yen_run", "c13_yen_run", rlimit=60)
+svia = VerusUnit("c13_single_via", "c13_single_via", rlimit=60)
+UNITS = [tm, al, yr, svia]
 EXPLANATION = "termination predicate and its error discipline under contract on the real code (Kani, complete over the integer domains); the search loop's use of it is carried by the Verus unit AL"
-NOT_DECIDED = "wall-clock kind inside a running search (clock assumed); limits inside the sub-searches of the k-shortest-path drivers"
+NOT_DECIDED = "wall-clock kind inside a running search (clock assumed); the limits inside the sub-searches are those of run_a_star (same TerminationModel handed through); decided for the drivers: an error of a sub-search (a terminated one in particular) ends the query -- single-via: both searches are `?`-propagated (Verus: the driver returns Ok only if both returned Ok); Yen: ghost log of spur outcomes (unit c13_yen_run)"
 ASSUMPTIONS = ["Instant::now replaced by a symbolic clock (stub)", "alloc::fmt::format stubbed: error text is not checked, only the error variant"]
